@@ -72,6 +72,8 @@ SCRIPTS = [
     ("7k/8/5QK1/8/8/8/8/8 b - - 98 80", "h8g8 f6g7"),
     ("7k/8/5QK1/8/8/8/8/8 b - - 97 80", "h8g8 f6g7"),
     ("8/8/8/8/3k4/8/2R1K3/8 w - - 92 60", "c2c3 d4d5 c3c2 d5d4 c2c3 d4d5 c3c2 d5d4 c2c3"),
+    # 1.e4 leaves an e.p. square although dxe3 is illegal (pawn pinned along the rank)
+    ("8/8/8/8/k2p3R/8/4P3/4K3 w - - 0 1", "e2e4 a4a5 e1d1 a5a4 d1e1 a4a5 e1d1 a5a4 d1e1 a4a5 e1d1 a5a4"),
 ]
 
 # =====================================================================================
@@ -413,10 +415,11 @@ class Proc:
 
 def parse_posinfo(s):
     """'hmc inCheck nLegal hash | fen' -> dict"""
-    left, fen = s.split(" | ")
+    parts = s.split(" | ")
+    left, fen = parts[0], parts[1]
     t = left.split()
     return dict(hmc=int(t[0]), check=t[1] == "1", nlegal=int(t[2]), hash=t[3], fen=fen, id=fen_id(fen),
-                white=fen.split()[1] == "w")
+                white=fen.split()[1] == "w", raw=parts[2].strip() if len(parts) > 2 else t[3])
 
 
 def parse_state(s):
@@ -852,22 +855,42 @@ def game_replay_script(g, upto):
 
 
 # ---- setupPosition, negaScout prefix on the positions of the games ----------------------
+def played_line(g):
+    """(moves, positions) actually on the board at the end of each log step; yields after every step
+    (step index, cmd, res, moves so far, positions so far).  Positions carry 'raw' = the Zobrist
+    key Position::makeMove produced before the e.p. fix-up (what the UCI layer stores)."""
+    moves, poss = [], [dict(g["log"][0][1]["state"])]
+    out = []
+    for i, (cmd, res) in enumerate(g["log"][1:], 1):
+        k = cmd[0]
+        out.append((i, cmd, res, list(moves), list(poss)))
+        if k == "undo":
+            if moves and res["state"]["nmoves"] == len(moves) - 1:
+                moves.pop()
+                poss.pop()
+        elif k in ("move", "claim", "offer") and res["state"]["nmoves"] == len(moves) + 1:
+            u = cmd[1] if k != "claim" else cmd[2]
+            aft = cmd[2] if k != "claim" else cmd[3]
+            p = dict(res["state"])
+            p["raw"] = aft["raw"] if aft else p["hash"]
+            moves.append(u)
+            poss.append(p)
+    return out, moves, poss
+
+
+def ep_affected(poss):
+    return any(p.get("raw", p["hash"]) != p["hash"] for p in poss)
+
+
 def game_lines(games, rng, n_setup, n_prefix):
     """requests for EngineControl::setupPosition and for the draw prefix of negaScout built
     from the move sequences / positions of the played games"""
     setup, prefix = [], []
     seqs = []
     for g in games:
-        moves, poss = [], [g["log"][0][1]["state"]]
-        for cmd, res in g["log"][1:]:
-            if cmd[0] == "undo":
-                if moves:
-                    moves.pop()
-                    poss.pop()
-            elif cmd[0] in ("move", "claim", "offer") and res["state"]["nmoves"] == len(moves) + 1:
-                u = cmd[1] if cmd[0] != "claim" else cmd[2]
-                moves.append(u)
-                poss.append(res["state"])
+        if any(c[0] == "undo" for c, _ in g["log"]):
+            continue            # the move list of the UCI command must be a straight line
+        _, moves, poss = played_line(g)
         if moves:
             seqs.append((g["fen"], moves, poss))
     if not seqs:
@@ -911,9 +934,9 @@ def stage_setup_prefix(ctx, cpp_exe, ml_exe, games, rng, n_setup, n_prefix):
             raise RuntimeError("draw_harness failed on S batch: rc=%d %s" % (rc, err[-500:]))
         for (line, poss), o in zip(c, out):
             ctx.evaluated()
-            if o.count("|") != 2:
+            if o.count("|") != 3:
                 raise RuntimeError("draw_harness: unexpected answer %r to %r" % (o, line))
-            head, lst, steps = [x.strip() for x in o.split("|")]
+            head, lst, steps, stepsf = [x.strip() for x in o.split("|")]
             size, hmc = [int(x) for x in head.split()]
             lst = lst.split()
             st = steps.split()
@@ -928,18 +951,28 @@ def stage_setup_prefix(ctx, cpp_exe, ml_exe, games, rng, n_setup, n_prefix):
             ctx.count("setup_len_%s" % ("0" if not exp else "1-10" if len(exp) <= 10 else "11-100"))
             if zero_idx and exp:
                 ctx.nontrivial("S:%s:%d" % (line[:60], k))
-            if lst != exp or size != len(exp) or hmc != cur["hmc"]:
-                bad.append(dict(kind="setup", line=line, cpp=o, what="setupPosition list/size/clock differs from the hashes since the last zeroing move", expected=exp))
+            stf = stepsf.split()
+            spec_ok = not (lst != exp or size != len(exp) or hmc != cur["hmc"])
+            mlines.append("S %d %d %s" % (poss[0]["hmc"], len(stf) // 2, " ".join(stf)))
             mlines.append("S %d %d %s" % (poss[0]["hmc"], len(st) // 2, " ".join(st)))
-            mexp.append((line, "%d %d | %s" % (size, hmc, " ".join(lst))))
+            mexp.append((line, "%d %d | %s" % (size, hmc, " ".join(lst)), spec_ok, st != stf, o, exp))
     rc, mres, err = run_lines(ml_exe, mlines)
     if rc != 0 or len(mres) != len(mlines):
         raise RuntimeError("draw_driver failed on S batch: rc=%d %s" % (rc, err[-500:]))
-    for (line, want), got in zip(mexp, mres):
-        parts = [x.strip() for x in got.split("|")]
-        have = "%s | %s" % (parts[0], parts[1])
-        if have.strip() != want.strip():
-            dis.append(dict(kind="setup", line=line, what="setupPosition model '%s' vs implementation '%s'" % (have, want)))
+    for i, (line, want, spec_ok, ep_diff, o, exp) in enumerate(mexp):
+        have = []
+        for got in (mres[2 * i], mres[2 * i + 1]):      # model on fixed-up keys, model on raw keys
+            parts = [x.strip() for x in got.split("|")]
+            have.append(("%s | %s" % (parts[0], parts[1])).strip())
+        if want.strip() not in have:
+            dis.append(dict(kind="setup", line=line, what="setupPosition model '%s' vs implementation '%s'" % (have[0], want)))
+        if not spec_ok:
+            if ep_diff and want.strip() == have[1] and have[0] != have[1]:
+                # the list is right for the keys makeMove produced, but those contain an e.p. square
+                # nobody can capture on: instance of the finding confirmed by the canonical probe
+                ctx.count("setup_history_with_unfixed_ep_square")
+            else:
+                bad.append(dict(kind="setup", line=line, cpp=o, what="setupPosition list/size/clock differs from the hashes since the last zeroing move", expected=exp))
     # ---- negaScout draw prefix ----
     chunks = [prefix[i:i + CH] for i in range(0, len(prefix), CH)]
     with ThreadPoolExecutor(max_workers=NCPU) as ex:
@@ -1125,25 +1158,36 @@ class Engine:
             self.p.kill()
 
 
+EP_PROBE = ("8/8/8/8/k2p3R/8/4P3/4K3 w - - 0 1", "e2e4 a4a5 e1d1 a5a4 d1e1 a4a5 e1d1 a5a4", "d1e1")
+EP_PROBE_KEY = "uci-history-ep-square-not-fixed-up:" + (EP_PROBE[0] + ":" + EP_PROBE[1] + ":" + EP_PROBE[2]).replace(" ", "_")
+
+
+def probe_ep(eng_exe):
+    """Canonical probe: 1.e4 sets an e.p. square although dxe3 is illegal (pinned along the rank);
+    the position then recurs twice without e.p. square: by the rules the third occurrence."""
+    e = Engine(eng_exe)
+    try:
+        sc, bm = e.score(EP_PROBE[0], EP_PROBE[1].split(), EP_PROBE[2], 1)
+    finally:
+        e.close()
+    return sc
+
+
 def uci_cases(games, rng, n):
     """(start fen, moves so far, positions so far, root move, position after) with the after-position
     known from the logs: every logged step carrying an 'aft' is a candidate"""
     cases = []
     for g in games:
-        moves, poss = [], [g["log"][0][1]["state"]]
-        for cmd, res in g["log"][1:]:
+        if any(c[0] == "undo" for c, _ in g["log"]):
+            continue
+        steps, _, _ = played_line(g)
+        for i, cmd, res, moves, poss in steps:
             k = cmd[0]
             aft = cmd[2] if k in ("move", "offer", "cpclaim") else cmd[3] if k == "claim" else None
             u = cmd[1] if k in ("move", "offer", "cpclaim") else cmd[2] if k == "claim" else None
             if aft and u and poss[-1]["nlegal"] > 0:
-                cases.append((g["fen"], list(moves), list(poss), u, aft))
-            if k == "undo":
-                if moves:
-                    moves.pop()
-                    poss.pop()
-            elif k in ("move", "claim", "offer") and res["state"]["nmoves"] == len(moves) + 1:
-                moves.append(u)
-                poss.append(res["state"])
+                cases.append((g["fen"], moves, poss, u, aft))
+
     def interest(c):
         fen, moves, poss, u, aft = c
         w = max(0, min(len(poss), aft["hmc"]))
@@ -1159,6 +1203,21 @@ def uci_cases(games, rng, n):
 
 def stage_uci(ctx, eng_exe, ml_exe, games, rng, n):
     cases = uci_cases(games, rng, n)
+    sc = probe_ep(eng_exe)
+    ctx.evaluated()
+    ep_ok = sc is not None and tuple(sc[:2]) == ("cp", 0)
+    ctx.count("ep_probe_" + ("ok" if ep_ok else "fails"))
+    if not ep_ok:
+        ctx.violation("UCI history: the position after a double pawn push keeps an en-passant square that cannot be captured on "
+                      "(EngineControl::setupPosition does not call fixupEPSquare), so its later recurrences get a different key and the "
+                      "third occurrence is missed: engine reports %s instead of cp 0; Game/ComputerPlayer (console mode) accept the claim" % (sc,),
+                      {"failing_input": dict(kind="uci", cmd="position fen %s moves %s ; go depth 1 searchmoves %s" % EP_PROBE,
+                                             what="third occurrence not scored as draw (unfixed e.p. square in the history)")},
+                      key=EP_PROBE_KEY)
+        # histories containing such a position are instances of the same finding: left out below
+        k0 = len(cases)
+        cases = [c for c in cases if not ep_affected(c[2][max(0, len(c[2]) - max(0, c[4]["hmc"])):])]
+        ctx.count("uci_cases_skipped_unfixed_ep_in_window", k0 - len(cases))
     jobs = [(c, rng.choice([1, 1, 2, 3])) for c in cases]
     nw = min(NCPU, 8)
     parts = [jobs[i::nw] for i in range(nw)]
@@ -1379,7 +1438,7 @@ def run(ctx):
             key = "%s:%s" % (first["kind"], first.get("line") or first.get("cmd"))
         replay["failing_input"] = first
         replay["spec_failures_total"] = len(bad)
-        ctx.violation(first["what"], replay, key=key)
+        ctx.violation(first["what"], replay, key=key.replace(" ", "_"))
     else:
         if dis and dis[0].get("kind") == "rep":
             dis[0]["line"] = shrink_rep(cpp_exe, ml_exe, dis[0]["line"], False)
